@@ -34,6 +34,8 @@ type Check struct {
 
 	P *Program
 
+	quiet bool // sub-check evaluated for an import: no trace output
+
 	obls     []Obligation
 	seen     map[string]int
 	analysed map[string]map[string]bool // category -> names
@@ -57,7 +59,7 @@ func (c *Check) add(o Obligation) {
 		c.seen[id] = 1
 	}
 	c.obls = append(c.obls, o)
-	if os.Getenv("KX_TRACE") != "" && strings.Contains(o.Key+o.Rule, os.Getenv("KX_TRACE")) {
+	if !c.quiet && os.Getenv("KX_TRACE") != "" && strings.Contains(o.Key+o.Rule, os.Getenv("KX_TRACE")) {
 		st := "ok  "
 		if !o.OK {
 			st = "FAIL"
